@@ -40,6 +40,17 @@ type Transport struct {
 	// through the guarded hook so that wire bytes replay exactly); nil: derived
 	// from SchedSeed.
 	Seed *int32 `json:"seed,omitempty"`
+	// ReadWindow, if > 0, shrinks the real sender's file read window (default
+	// 256 KiB) to max(3*blockLength, ReadWindow) through the guarded knob, so
+	// that the window slides, re-aligns and regrows on small files too.
+	ReadWindow int `json:"read_window,omitempty"`
+}
+
+// ApplyKnobs pins the process-wide hooks (checksum seed, tuning knobs) for the
+// sessions of this transport.
+func (tr *Transport) ApplyKnobs() {
+	pinSeed(tr.ChecksumSeed())
+	setReadWindow(tr.ReadWindow)
 }
 
 // ChecksumSeed returns the seed pinned for sessions of this transport.
@@ -51,7 +62,7 @@ func (tr *Transport) ChecksumSeed() int32 {
 }
 
 func (tr *Transport) NewSim() *kernel.Sim {
-	pinSeed(tr.ChecksumSeed())
+	tr.ApplyKnobs()
 	var tape *kernel.Tape
 	if tr.Tape != nil {
 		tape = kernel.NewFixedTape(tr.Tape)
@@ -224,6 +235,7 @@ func RunSyncSessionWithModules(t *testing.T, sc *SyncScenario, lay Layout, hooks
 // sync.Mutex inside io.Pipe, which synctest cannot see as quiescent). A hang
 // is reported as a deadlock; its goroutines are abandoned.
 func runA4(sc *SyncScenario, lay Layout, res *SessionResult) {
+	sc.Tr.ApplyKnobs()
 	cErr, cOut := &lockedBuf{max: 1 << 20}, &lockedBuf{max: 1 << 20}
 	args := append([]string{}, sc.Opts...)
 	for _, a := range sc.Sources {
